@@ -46,6 +46,16 @@ func genCase(t *rapid.T) arith.Case {
 		v := new(big.Int).Exp(rb, big.NewInt(int64(k)), nil)
 		c.X = core.Dec{Coeff: v.String(), Exp: int32(k * rapid.IntRange(-20, 20).Draw(t, "ppexp")), Neg: c.Op == "cbrt" && rapid.Bool().Draw(t, "ppneg")}
 	}
+	if gen.Pick(t, 1500, "hugecoeff") == 1 {
+		// a coefficient of tens of thousands of digits at a tiny precision: the operand is
+		// about 10^digits times larger than its leading digits suggest, which any scaling by
+		// the digit count has to take into account
+		n := rapid.IntRange(15000, 40000).Draw(t, "hclen")
+		c.X = core.Dec{Coeff: gen.DigitsN(t, n, 9, "hcd"), Exp: int32(rapid.IntRange(-n, 100).Draw(t, "hce")), Neg: c.Op == "cbrt" && rapid.Bool().Draw(t, "hcneg")}
+		c.Ctx.P = uint32(rapid.IntRange(1, 3).Draw(t, "hcp"))
+		c.Ctx.Emax, c.Ctx.Emin = gen.Limit, -gen.Limit
+		c.Ctx.Traps = 0
+	}
 	if c.X.Coeff == "0" {
 		c.X.Coeff = "2"
 	}
